@@ -48,6 +48,7 @@ const (
 	qDynArrGet       = "C04-dynamic-array-get-string-index"
 	qGoMapForeignIdx = "C04-gomap-setforeignidx"
 	qHostSlice       = "C04-host-slice-elements-nonconfigurable-removable"
+	qLiveEnum        = "C04-exotic-enumeration-live-keys"
 	qSliceSealWipe   = "C04-slice-seal-wipes-elements" // neighbourhood (seal/freeze/define without value on slice wrappers) is inside qHostSlice's
 )
 
@@ -153,6 +154,23 @@ func excluded(c *Case, o *Op) bool {
 	if quarantine[qGoMapForeignIdx] && c.Kind == "gomap" && o.Op == "set" && isIndexKey(o.Key) && (o.Recv != "" || o.Obj == "D") {
 		return true
 	}
+	if quarantine[qLiveEnum] && (c.Kind == "dense" || c.Kind == "sparse" || c.Kind == "string") {
+		// arrays / String objects enumerate live: no key-adding mutator on T while an enumeration may be in progress
+		adds := func(b *Op) bool {
+			return b != nil && (b.Op == "set" || b.Op == "define") && (b.Obj == "T" || b.Recv == "T")
+		}
+		if o.Op == "enum" && adds(o.Body) {
+			return true
+		}
+		// the sparse iterator (a dense array may have switched to sparse storage) indexes the live item list: a deletion
+		// before the current position skips an element
+		if o.Op == "enum" && c.Kind != "string" && o.Body != nil && (o.Body.Obj == "T" || o.Body.Recv == "T") {
+			return true
+		}
+		if o.Op == "enumopen" && (o.Obj == "T" || o.Obj == "D") {
+			return true
+		}
+	}
 	if quarantine[qSliceSealWipe] && (c.Kind == "goslice" || c.Kind == "gorefslice") && onT {
 		if o.Op == "seal" || o.Op == "freeze" || o.Op == "define" && o.Mask&1 == 0 {
 			return true
@@ -218,7 +236,7 @@ var opWeights = []struct {
 }{
 	{"define", 26}, {"set", 18}, {"get", 8}, {"delete", 9}, {"has", 4}, {"hasOwn", 3}, {"isEnum", 1}, {"gopd", 5}, {"ownKeys", 4}, {"keys", 3}, {"forin", 2},
 	{"syms", 1}, {"entries", 1}, {"preventExtensions", 2}, {"seal", 2}, {"freeze", 2}, {"isSealed", 1}, {"isFrozen", 1}, {"isExtensible", 1},
-	{"getProto", 2}, {"setProto", 5}, {"special", 2},
+	{"getProto", 2}, {"setProto", 5}, {"special", 2}, {"enum", 7}, {"enumopen", 2}, {"enumnext", 4},
 }
 
 var valueNames = []string{"u", "n", "t", "1", "2", "-0", "0", "nan", "1.5", "2.5", "300", "-1", "sa", "sb", "s7", "s", "V1", "V2", "symS1", "T", "P1", "D"}
@@ -350,7 +368,7 @@ func genCase(r *core.Rng) *Case {
 				o.Val = genValue(r, c, &o)
 			}
 			if o.Mask&4 != 0 {
-				o.Get = core.Pick(r, []string{"G1", "G1", "G2", "GT", "u", "bad"})
+				o.Get = core.Pick(r, []string{"G1", "G1", "G2", "GT", "GM", "u", "bad"})
 			}
 			if o.Mask&8 != 0 {
 				o.Set = core.Pick(r, []string{"St1", "St1", "St2", "StT", "u", "bad"})
@@ -369,6 +387,51 @@ func genCase(r *core.Rng) *Case {
 			if r.Chance(1, 3) {
 				o.Recv = core.Pick(r, []string{"T", "P1", "D", "U", "1", "sa"})
 			}
+		case "enum":
+			o.Iss = core.Pick(r, issuers["enum"])
+			o.Step = r.Intn(3)
+			o.Brk = (o.Iss == "forin" || o.Iss == "forin-strict") && r.Bool()
+			b := Op{Op: []string{"delete", "delete", "define", "set"}[r.Intn(4)], Obj: o.Obj}
+			if r.Chance(1, 5) {
+				b.Obj = core.Pick(r, worldObjects)
+			}
+			b.Key, b.Num = pickKey(r, c)
+			switch b.Op {
+			case "define":
+				b.Mask = []int{1 | 2 | 16 | 32, 1, 4 | 8 | 16 | 32, 16, 32}[r.Intn(5)]
+				b.Flags = r.Intn(8)
+				if b.Mask&1 != 0 {
+					b.Val = genValue(r, c, &b)
+				}
+				if b.Mask&4 != 0 {
+					b.Get, b.Set = core.Pick(r, []string{"G1", "G2", "u"}), core.Pick(r, []string{"St1", "u"})
+				}
+			case "set":
+				b.Val = genValue(r, c, &b)
+			}
+			var bok []string
+			for _, iss := range issuers[b.Op] {
+				if issuerOK(&b, iss) {
+					bok = append(bok, iss)
+				}
+			}
+			b.Iss = core.Pick(r, bok)
+			if b.Iss == "go" {
+				b.Num = false
+			}
+			if excluded(c, &b) {
+				continue
+			}
+			o.Body = &b
+			if o.Iss != "forin" && o.Iss != "forin-strict" && r.Chance(2, 3) && len(c.Ops) < n-1 {
+				// give the source an enumerable accessor whose getter (GM) runs the body
+				g := Op{Op: "define", Obj: o.Obj, Mask: 4 | 16 | 32, Get: "GM", Flags: 2 | 4, Iss: core.Pick(r, []string{"object", "reflect", "objects"})}
+				g.Key, g.Num = pickKey(r, c)
+				if !excluded(c, &g) {
+					c.Ops = append(c.Ops, g)
+				}
+			}
+		case "enumopen", "enumnext":
 		case "delete", "has", "hasOwn", "isEnum", "gopd":
 			o.Key, o.Num = pickKey(r, c)
 		case "setProto":
@@ -387,7 +450,9 @@ func genCase(r *core.Rng) *Case {
 		if len(ok) == 0 {
 			continue
 		}
-		o.Iss = core.Pick(r, ok)
+		if o.Op != "enum" {
+			o.Iss = core.Pick(r, ok)
+		}
 		if o.Iss == "go" {
 			o.Num = false
 		}
@@ -423,6 +488,11 @@ func twinOps(c *Case) []Op {
 		for i := range ops {
 			if ops[i].Key != "" && keyByName[ops[i].Key].num && ops[i].Iss != "go" {
 				ops[i].Num = !ops[i].Num
+			}
+			if b := ops[i].Body; b != nil && keyByName[b.Key].num && b.Iss != "go" {
+				nb := *b
+				nb.Num = !nb.Num
+				ops[i].Body = &nb
 			}
 		}
 	default:
